@@ -13,7 +13,9 @@ class C02(rowgen.RowGenProp):
     theorems = ["Wheatley.C02.plain_rows", "Wheatley.C02.leadIndex_spec", "Wheatley.C02.runOps_next_pn",
                 "Wheatley.C02.plainHunt_course", "Wheatley.C02.grandsire_course",
                 "Wheatley.C02.stedman_course", "Wheatley.C02.builtin_lead_lengths",
-                "Wheatley.C02.plain_bob_minor"]
+                "Wheatley.C02.plain_bob_minor",
+                "Wheatley.C02.notation_round_trip",
+                "Wheatley.C02.generator_rings_the_notation"]
     level_text = ("theorems: row k = start row transformed by the first k changes read cyclically from the start "
                   "index (unbounded k, any notation/stage/start index); course lengths of the built-in methods on "
                   "every supported stage (finite tables by decide +kernel). correspondence: notation strings "
@@ -54,6 +56,22 @@ class C02(rowgen.RowGenProp):
                 yield rowgen.gen_case(rng, spec, n_rows)
             else:
                 yield {"k": "convert", "s": gens.render_ast(rng, gens.rand_ast(rng, rng.randint(2, 16)))}
+        # the statement of `notation_round_trip` against the real convert_pn: blocks with explicit dots around
+        # the crosses, written out by `RoundTrip.textOf` (driver) and by the harness, converted by the real code
+        for i in range(300 if tier == "quick" else 4000):
+            stage = rng.randint(2, 16)
+            blocks = []
+            for _ in range(rng.choice([1, 1, 2, 2, 3])):
+                toks = []
+                for _ in range(rng.randint(1, 7)):
+                    if rng.random() < 0.4:
+                        toks.append([rng.choice("x-"), rng.choice([0, 0, 1, 2, 3]), rng.choice([0, 0, 1, 2, 3])])
+                    else:
+                        k = rng.randint(1, min(4, stage))
+                        toks.append(["p", sorted(rng.sample(range(1, stage + 1), k)) if rng.random() < 0.8
+                                     else [rng.randint(1, stage) for _ in range(k)], 0])
+                blocks.append({"pre": rng.choice(["", "", "&", "+"]), "toks": toks})
+            yield {"k": "roundtrip", "blocks": blocks}
         # through the Bot: every start of the method in a session (first Go, a second Go after That's all /
         # Rounds) rings the notation's rows from the start index
         yield from _c05.PROP.world_cases(rng, 25 if tier == "quick" else 250)
@@ -68,6 +86,8 @@ class C02(rowgen.RowGenProp):
         return _c05.PROP.compare(req, ir, mr) if req["k"] == "world" else super().compare(req, ir, mr)
 
     def nontrivial(self, req, reply):
+        if req["k"] == "roundtrip":
+            return reply["denote"] is not None and len(reply["denote"]) >= 2
         if req["k"] == "world":
             return _c05.PROP.nontrivial(req, reply)
         if req["k"] == "convert":
@@ -75,6 +95,8 @@ class C02(rowgen.RowGenProp):
         return super().nontrivial(req, reply)
 
     def tag(self, req, reply):
+        if req["k"] == "roundtrip":
+            return f"roundtrip:{len(req['blocks'])}block"
         if req["k"] == "world":
             return "bot:start-and-restart"
         if req["k"] == "convert":
@@ -82,6 +104,12 @@ class C02(rowgen.RowGenProp):
         return super().tag(req, reply)
 
     def oracle(self, req, reply):
+        if req["k"] == "roundtrip":
+            from harness import implrun
+            want = implrun.rt_denote(req["blocks"])
+            if reply["denote"] != want:
+                return f"convert_pn({reply['text']!r}) = {reply['denote']}, the conventions define {want}"
+            return None
         if req["k"] == "world":
             return _c05.PROP.oracle_world(req, reply)
         if req["k"] != "gen" or "err" in reply:
